@@ -13,6 +13,8 @@ use std::sync::{Arc, Mutex};
 #[derive(Clone, Debug, Serialize, Deserialize, PartialEq, Eq, Hash)]
 pub enum Op {
     Connect { from: u8, to: u8 },
+    /// connect_with_peer_id(addr of `to`, id of `to`)
+    ConnectPinned { from: u8, to: u8 },
     Disconnect { at: u8, peer: u8 },
     Rpc { from: u8, to: u8 },
     /// graceful shutdown, restart with the same key (and address) after `down_ms`
@@ -30,6 +32,10 @@ pub enum Op {
 pub struct Case {
     pub nodes: u8,
     pub idle_ms: u16,
+    /// extra idle timeout (ms) of odd-numbered nodes on top of `idle_ms`: nodes may be configured
+    /// differently; each node's own configured value bounds how long IT may keep a dead entry
+    #[serde(default)]
+    pub idle_skew_ms: u16,
     pub keep_alive: bool,
     pub ops: Vec<Op>,
 }
@@ -59,19 +65,21 @@ struct Tracker {
     io: BTreeMap<(usize, [u8; 32]), (u64, u64, u64, u64)>,
     worst_ms: u64,
     /// finished stale intervals longer than the bound: (lister, peer, from, to, cause_restart_on_send, rtt estimate ms)
-    over: Vec<(usize, [u8; 32], u64, u64, bool, u64)>,
+    over: Vec<(usize, [u8; 32], u64, u64, bool, u64, u64)>,
 }
 
 pub fn check(case: &Case, obs: &mut Obs) -> Result<(), Fail> {
     let case = case.clone();
     run_sim(71, 2, |sim| async move {
         let n = case.nodes.clamp(2, 5) as usize;
-        let idle = case.idle_ms.clamp(3_500, 12_000) as u64;
+        let idle_base = case.idle_ms.clamp(3_500, 12_000) as u64;
+        let idle_of = |i: usize| idle_base + if i % 2 == 1 { case.idle_skew_ms as u64 } else { 0 };
+        let idle = idle_base + case.idle_skew_ms as u64; // the largest configured value (tail lengths)
         let spec = |i: usize| {
             let mut s = NodeSpec::new(i as u8);
             let q = s.config.quic.as_mut().unwrap();
-            q.max_idle_timeout_ms = Some(idle);
-            q.keep_alive_interval_ms = if case.keep_alive { Some(idle / 3) } else { None };
+            q.max_idle_timeout_ms = Some(idle_of(i));
+            q.keep_alive_interval_ms = if case.keep_alive { Some(idle_of(i) / 3) } else { None };
             s.config.shutdown_idle_timeout_ms = Some(200);
             s
         };
@@ -84,6 +92,7 @@ pub fn check(case: &Case, obs: &mut Obs) -> Result<(), Fail> {
         let ids: Vec<PeerId> = slots.lock().unwrap().iter().map(|s| s.node.id()).collect();
         let tracker = Arc::new(Mutex::new(Tracker::default()));
         // ---- the sampler: every 100 ms of virtual time look at all views
+        let skew = case.idle_skew_ms as u64;
         let sample = {
             let slots = slots.clone();
             let tracker = tracker.clone();
@@ -124,13 +133,15 @@ pub fn check(case: &Case, obs: &mut Obs) -> Result<(), Fail> {
                             let rtt = tr.stale_rtt.remove(&key).unwrap_or(0);
                             let len = now - since;
                             tr.worst_ms = tr.worst_ms.max(len);
+                            let idle = idle_base + if a % 2 == 1 { skew } else { 0 }; // the lister's own configured idle timeout
                             if len > idle + SLACK_MS {
                                 // cause test for the known finding: the stale side kept transmitting to
                                 // the peer after the last datagram it received from it
                                 // from the stale connection's own counters: did its owner transmit at or
                                 // after the time it last received anything on it?
                                 let cause = tr.io.get(&key).map_or(false, |(_, _, t_tx, t_rx)| t_tx >= t_rx && *t_tx > since.saturating_sub(idle + SLACK_MS));
-                                tr.over.push((a, ids[b].0, since, now, cause, rtt));
+                                let _ = idle;
+                                tr.over.push((a, ids[b].0, since, now, cause, rtt, idle));
                             }
                         }
                         if !lists {
@@ -151,7 +162,7 @@ pub fn check(case: &Case, obs: &mut Obs) -> Result<(), Fail> {
         };
         let evaluate = |tracker: &Arc<Mutex<Tracker>>, what: &str| -> Result<(), Fail> {
             let mut tr = tracker.lock().unwrap();
-            for (a, b, from, to, cause, rtt) in tr.over.drain(..) {
+            for (a, b, from, to, cause, rtt, idle) in tr.over.drain(..) {
                 let len = to - from;
                 // two transport-level causes are known findings (F5a/F5b); everything else is fresh
                 let key = if len <= 2 * idle + SLACK_MS && cause {
@@ -173,13 +184,17 @@ pub fn check(case: &Case, obs: &mut Obs) -> Result<(), Fail> {
         for (step, op) in case.ops.iter().enumerate() {
             let what = format!("step {step} {op:?}");
             match op {
-                Op::Connect { from, to } => {
+                Op::Connect { from, to } | Op::ConnectPinned { from, to } => {
                     let (f, t) = (*from as usize % n, *to as usize % n);
                     if f == t { continue; }
                     let (net, addr, alive) = { let sl = slots.lock().unwrap(); (sl[f].node.net.clone(), sl[t].node.addr(), sl[f].alive) };
                     if !alive { continue; }
                     if disconnected_pairs.contains(&(f, t)) { n_reconnect += 1; }
-                    let _ = within(15_000, net.connect(addr)).await;
+                    if matches!(op, Op::ConnectPinned { .. }) {
+                        let _ = within(15_000, net.connect_with_peer_id(addr, ids[t])).await;
+                    } else {
+                        let _ = within(15_000, net.connect(addr)).await;
+                    }
                 }
                 Op::Disconnect { at, peer } => {
                     let (a, p) = (*at as usize % n, *peer as usize % n);
@@ -340,11 +355,12 @@ impl Part for Histories {
     type Case = Case;
     fn name(&self) -> &'static str { "histories" }
     fn rule(&self) -> &'static str {
-        "2-5 networks (idle timeout 3.5-12 s, keep-alive on or off; shorter idle timeouts are not generated because QUIC floors the idle period at 3 PTO, which is up to ~3 s before RTT samples exist): histories of connect, disconnect, rpc, graceful shutdown + restart, crash (black-hole, nothing closed) + restart with the same key on a fresh address, pairwise and ONE-DIRECTIONAL partitions, loss bursts, waits; views sampled every 100 ms of virtual time; oracle: (1) no period during which A lists B while B does not list A exceeds idle timeout + 500 ms slack; (2) after a fault-free tail views are mutual and every listed peer answers an RPC; (3) disconnect removes at once, the next event for that peer is LostPeer(Requested), RPCs to it fail until reconnected; a one-sided period in (idle+slack, 2*idle+slack] whose stale side transmitted after its last receipt is the known finding F5; non-trivial = a partition/crash longer than the idle timeout, or a disconnect followed by a reconnect; distinct by history"
+        "2-5 networks (idle timeout 3.5-12 s, keep-alive on or off; shorter idle timeouts are not generated because QUIC floors the idle period at 3 PTO, which is up to ~3 s before RTT samples exist): per-node idle timeouts may differ (each node's own value bounds how long it may keep a dead entry); histories of connect, connect_with_peer_id, disconnect, rpc, graceful shutdown + restart, crash (black-hole, nothing closed) + restart with the same key on a fresh address, pairwise and ONE-DIRECTIONAL partitions, loss bursts, waits; views sampled every 100 ms of virtual time; oracle: (1) no period during which A lists B while B does not list A exceeds idle timeout + 500 ms slack; (2) after a fault-free tail views are mutual and every listed peer answers an RPC; (3) disconnect removes at once, the next event for that peer is LostPeer(Requested), RPCs to it fail until reconnected; a one-sided period in (idle+slack, 2*idle+slack] whose stale side transmitted after its last receipt is the known finding F5; non-trivial = a partition/crash longer than the idle timeout, or a disconnect followed by a reconnect; distinct by history"
     }
     fn strategy(&self, _t: Tier) -> BoxedStrategy<Case> {
         let op = prop_oneof![
-            6 => (0u8..5, 0u8..5).prop_map(|(from, to)| Op::Connect { from, to }),
+            4 => (0u8..5, 0u8..5).prop_map(|(from, to)| Op::Connect { from, to }),
+            3 => (0u8..5, 0u8..5).prop_map(|(from, to)| Op::ConnectPinned { from, to }),
             2 => (0u8..5, 0u8..5).prop_map(|(at, peer)| Op::Disconnect { at, peer }),
             3 => (0u8..5, 0u8..5).prop_map(|(from, to)| Op::Rpc { from, to }),
             1 => (0u8..5, 0u16..3000).prop_map(|(node, down_ms)| Op::ShutdownRestart { node, down_ms }),
@@ -353,9 +369,30 @@ impl Part for Histories {
             1 => (50u16..400, 100u16..5000).prop_map(|(pm, ms)| Op::Loss { pm, ms }),
             4 => prop_oneof![0u16..100, 100u16..3000, 3000u16..25_000].prop_map(Op::Wait),
         ];
-        (2u8..6, 3_500u16..12_000, any::<bool>(), prop::collection::vec(op, 1..22)).prop_map(|(nodes, idle_ms, keep_alive, ops)| Case { nodes, idle_ms, keep_alive, ops }).boxed()
+        (2u8..6, 3_500u16..12_000, prop_oneof![2 => Just(0u16), 2 => 2_000u16..15_000], any::<bool>(), prop::collection::vec(op, 1..22))
+            .prop_map(|(nodes, idle_ms, idle_skew_ms, keep_alive, ops)| Case { nodes, idle_ms, idle_skew_ms, keep_alive, ops })
+            .boxed()
     }
     fn run(&self, c: &Case, obs: &mut Obs) -> Result<(), Fail> { check(c, obs) }
+}
+
+/// "An explicit disconnect removes the peer locally at once", also while other threads are
+/// listing and subscribing: the shared-set stress of C04 with the removal assertion.
+pub struct DisconnectUnderContention;
+impl Part for DisconnectUnderContention {
+    type Case = super::c04::StressCase;
+    fn name(&self) -> &'static str { "disconnect-under-contention" }
+    fn deterministic(&self) -> bool { false }
+    fn rule(&self) -> &'static str {
+        "the active-peer set shared by 2-8 OS threads (hook H6, real connections): one thread adds/removes, the others list and subscribe in tight loops; oracle: right after remove() returns the peer is no longer registered, and every observer's snapshot + events reproduces the final listing; real threads, sampled interleavings; non-trivial = a subscription was taken while a mutation was in progress; distinct by case"
+    }
+    fn strategy(&self, t: Tier) -> BoxedStrategy<super::c04::StressCase> { super::c04::ThreadStress.strategy(t) }
+    fn run(&self, c: &super::c04::StressCase, obs: &mut Obs) -> Result<(), Fail> {
+        super::c04::stress_case(c, obs).map_err(|e| match e {
+            Fail::Violation { key, msg } => Fail::Violation { key: key.replace("c04:", "c09:"), msg },
+            other => other,
+        })
+    }
 }
 
 pub fn run(tier: Tier) -> i32 {
@@ -363,5 +400,6 @@ pub fn run(tier: Tier) -> i32 {
     ctx.assume("'eventually' is checked as the bounded virtual-time deadlines the statement names (idle timeout) plus 500 ms slack for RTT/PTO skew and one sampling step");
     ctx.assume("a crashed node is one whose datagrams vanish in both directions and which never closes anything");
     ctx.run_part(Histories, tier.pick(2_500, 60_000));
+    ctx.run_part_threads(DisconnectUnderContention, tier.pick(16, 400), 4);
     ctx.finish()
 }
